@@ -240,6 +240,7 @@ structure SeqLrn where
   params : Option String
   hasScore : Bool
   script : List Coba.C06.Driver.Entry
+  kind : String := "plain"      -- phase 5: "plain" | "pmf" (answers with PMFs) | "info" (writes learning_info) | "rowlen2" ((a,p) tuples)
 
 structure SeqVal where
   params : Option String
@@ -255,7 +256,8 @@ def parseSeqEnv (j : Json) : Except String SeqEnv := do
 
 def parseSeqLrn (j : Json) : Except String SeqLrn := do
   pure { params := ← opt str (fieldD j "params" Json.null), hasScore := ← bool (← field j "has_score"),
-         script := ← (← arr (← field j "script")).mapM Coba.C06.Driver.parseEntry }
+         script := ← (← arr (← field j "script")).mapM Coba.C06.Driver.parseEntry,
+         kind := ← str (fieldD j "kind" (Json.str "plain")) }
 
 def parseSeqVal (j : Json) : Except String SeqVal := do
   let cj ← field j "cfg"
@@ -269,17 +271,29 @@ def dfltSeqVal : SeqVal := ⟨none, none, { learn := .on, eval := .on, record :=
 def mkSeqWorld (envs : List SeqEnv) (lrns : List SeqLrn) (vals : List SeqVal) :
     SeqWorld (Nat × Nat) Coba.C06.Driver.V Coba.C06.Driver.RTab String :=
   { envParams := fun e => toParams ((envs.getD e ⟨none, none, none, none⟩).params)
-    lrnParams := fun l => toParams ((lrns.getD l ⟨none, false, []⟩).params)
+    lrnParams := fun l => toParams ((lrns.getD l ⟨none, false, [], "plain"⟩).params)
     valParams := fun v => toParams ((vals.getD v dfltSeqVal).params)
     chunkKey := fun e => (envs.getD e ⟨none, none, none, none⟩).chunk
     valSeed := fun v => (vals.getD v dfltSeqVal).seed
     cfgOf := fun v => (vals.getD v dfltSeqVal).cfg
-    learner := fun l => let L := lrns.getD l ⟨none, false, []⟩; Coba.C06.Driver.scripted L.script L.hasScore
+    learner := fun l => let L := lrns.getD l ⟨none, false, [], "plain"⟩; Coba.C06.Driver.scripted L.script L.hasScore
     init := fun _ => (0, 0)
     envRows := fun e => match (envs.getD e ⟨none, none, none, none⟩).inters with
       | some rows => .ok rows
       | none => .error .raised
     batch := fun e => (envs.getD e ⟨none, none, none, none⟩).batch }
+
+/-- phase 5: the extended world — scripted PMF learners (`scriptedPmf`, drawn through `wrapPmf` with the C05 stream)
+and scripted info-writing learners (`scriptedI`, `evaluateI`) -/
+def mkSeqWorldX (envs : List SeqEnv) (lrns : List SeqLrn) (vals : List SeqVal) :
+    SeqWorldX (Nat × Nat) Coba.C06.Driver.V Coba.C06.Driver.RTab String :=
+  { base := mkSeqWorld envs lrns vals
+    ext := fun l =>
+      let L := lrns.getD l ⟨none, false, [], "plain"⟩
+      if L.kind == "pmf" then some (.pmf (Coba.C06.Driver.scriptedPmf L.script L.hasScore) "null")
+      else if L.kind == "rowlen2" then some (.rowLen (Coba.C06.Driver.scripted L.script L.hasScore) 2)
+      else if L.kind == "info" then some (.info (Coba.C06.Driver.scriptedI L.script L.hasScore))
+      else none }
 
 def seqResultJson (r : Result String (Coba.C06.Row Coba.C06.Driver.V Coba.C06.Driver.RTab)) : Json :=
   obj [("exp", match r.exp with
@@ -300,7 +314,7 @@ def handleSeq (req : Json) : Except String Json := do
   let triples ← (← arr (← field req "triples")).mapM parseTriple
   let cfg ← parseCfg (← field req "cfg")
   let picks ← natList (fieldD req "picks" (Json.arr #[]))
-  let c := seqComps (mkSeqWorld envs lrns vals)
+  let c := seqCompsX (mkSeqWorldX envs lrns vals)
   let evs := runEvents c cfg picks seed triples
   let heap := (List.range lrns.length).map (fun l => Json.arr #[ofNat (evs.2 l).2.1, ofNat (evs.2 l).2.2])
   pure (obj [("model", seqResultJson (run c cfg picks seed triples)),
